@@ -53,6 +53,11 @@ class Sched(object):
     def me(self):
         return getattr(self.tls, "name", None)
 
+    def owner(self):
+        """The simulated PROCESS the calling actor belongs to (a helper thread started inside a process acts on that
+        process's queue buffers)."""
+        return getattr(self.tls, "owner", None) or self.me()
+
     def sync(self, op, outcomes):
         """Post an operation; outcomes() -> {outcome_name: effect} for the currently enabled outcomes."""
         name = self.me()
@@ -194,6 +199,9 @@ def _bump():
     S.version += 1
 
 
+PIPE_CAPACITY = 65536     # bytes an OS pipe holds before a writer blocks (Linux default)
+
+
 class FakeQueue(object):
     def __init__(self, maxsize=0):
         S.nq += 1
@@ -202,6 +210,9 @@ class FakeQueue(object):
         S.queues[self.name] = self
         self.buf = collections.defaultdict(collections.deque)
         self.pipe = collections.deque()
+        self.sizes = collections.deque()  # message sizes, parallel to self.pipe
+        self.pipe_bytes = 0               # bytes written to the OS pipe and not yet received
+        self.midwrite = None              # owner of the feeder blocked in the middle of a write (holds the write lock)
         self.inflight = 0
         self.rlock = None
         self.closed = set()
@@ -211,7 +222,7 @@ class FakeQueue(object):
         self.nget = 0
 
     def put(self, item, block=True, timeout=None):
-        me = S.me()
+        me = S.owner()
         if me in self.closed:
             raise ValueError("Queue %r is closed" % self)
 
@@ -253,7 +264,11 @@ class FakeQueue(object):
                     self.nget += 1
                     self.rlock = None
                     _bump()
-                    return ("item", self.pipe.popleft())
+                    item = self.pipe.popleft()
+                    self.pipe_bytes -= self.sizes.popleft()
+                    if self.pipe_bytes <= PIPE_CAPACITY:
+                        self.midwrite = None
+                    return ("item", item)
                 return {"item": eff}
             if timed:
                 def eff2():
@@ -279,7 +294,7 @@ class FakeQueue(object):
         return not self.pipe
 
     def close(self):
-        me = S.me()
+        me = S.owner()
 
         def eff():
             self.closed.add(me)
@@ -287,13 +302,13 @@ class FakeQueue(object):
         S.sync(("close", self.name), lambda: {"ok": eff})
 
     def join_thread(self):
-        me = S.me()
+        me = S.owner()
         # after cancel_join_thread() the real join_thread() is a no-op (the finalizer is never set / is cancelled)
         S.sync(("join_thread", self.name),
-               lambda: ({"ok": lambda: None} if (not self.buf[me] or me in self.joincancelled) else {}))
+               lambda: ({"ok": lambda: None} if ((not self.buf[me] and self.midwrite != me) or me in self.joincancelled) else {}))
 
     def cancel_join_thread(self):
-        self.joincancelled.add(S.me())
+        self.joincancelled.add(S.owner())
 
 
 def _ensure_feeder(q, owner):
@@ -304,11 +319,15 @@ def _ensure_feeder(q, owner):
     def feeder():
         while True:
             def outs():
+                if q.midwrite is not None:
+                    # a write larger than the free space of the OS pipe blocks (holding the queue's write lock) until
+                    # readers have drained enough; the message is already visible to poll()
+                    return {}
                 if q.buf[owner]:
                     def eff():
                         item = q.buf[owner].popleft()
                         try:
-                            pickle.dumps(item)      # the real feeder thread pickles here ...
+                            size = len(pickle.dumps(item)) + 4      # the real feeder thread pickles here ...
                         except Exception:  # noqa
                             # ... and on failure drops the object and gives the slot back (Queue._feed, 3.12)
                             q.inflight -= 1
@@ -316,6 +335,10 @@ def _ensure_feeder(q, owner):
                             _bump()
                             return True
                         q.pipe.append(item)
+                        q.sizes.append(size)
+                        q.pipe_bytes += size
+                        if q.pipe_bytes > PIPE_CAPACITY:
+                            q.midwrite = owner
                         _bump()
                         return True
                     return {"flush": eff}
@@ -414,6 +437,45 @@ class FakeProcess(object):
         pass
 
 
+class FakeThread(object):
+    """threading.Thread for helper threads that library code starts inside a simulated process (for instance to wait
+    for a queue's feeder with a time limit): one more actor, acting on behalf of its process."""
+
+    def __init__(self, group=None, target=None, name=None, args=(), kwargs=None, daemon=None):
+        S.nt = getattr(S, "nt", 0) + 1
+        self.owner = S.owner()
+        self.name = "%s/t%d" % (self.owner, S.nt)
+        self.target, self.args, self.kwargs, self.daemon = target, args, kwargs or {}, daemon
+        self.started = False
+
+    def start(self):
+        self.started = True
+
+        def body():
+            S.tls.owner = self.owner
+            self.target(*self.args, **self.kwargs)
+        S.spawn(self.name, body, kind="thread")
+        _bump()
+
+    def join(self, timeout=None):
+        def outs():
+            if not S.alive(self.name):
+                return {"ok": lambda: None}
+            return {"join_timeout": lambda: None} if timeout is not None else {}
+        S.sync(("join", self.name), outs)
+
+    def is_alive(self):
+        return self.started and S.alive(self.name)
+
+
+class _ThreadingShim(object):
+    """Stands in for the `threading` module inside toasty.par_util during a simulated run."""
+    Thread = FakeThread
+
+    def __getattr__(self, name):
+        return getattr(threading, name)
+
+
 def fake_connection_wait(object_list, timeout=None):
     """multiprocessing.connection.wait over process sentinels: returns those whose process has ended (blocks until at least
     one has, or times out)."""
@@ -451,12 +513,22 @@ def installed():
         def __exit__(self, *a):
             return False
     warnings.catch_warnings = _NoCatch
+    pu = None
+    try:
+        import toasty.par_util as pu
+    except Exception:  # noqa
+        pu = None
+    saved_thr = getattr(pu, "threading", None) if pu is not None else None
+    if saved_thr is not None:
+        pu.threading = _ThreadingShim()
     try:
         yield S
     finally:
         try:
             S.kill_all()
         finally:
+            if saved_thr is not None:
+                pu.threading = saved_thr
             mp.Queue, mp.Event, mp.Process = saved
             mpc.wait = saved_wait
             warnings.catch_warnings = saved_cw
